@@ -107,3 +107,34 @@ Proof.
   unfold file_entry, mk_entry, hdr_of_entry, tar_written. cbn [e_kind e_link h_link].
   rewrite str_lit. repeat split.
 Qed.
+
+(* ---- the envelope on the tree implies the envelope on the walk ------------------------------- *)
+Lemma tree_bytes_ok_walk : forall ev cs cid_of t p, tree_bytes_okb ev cs cid_of p t = true ->
+  forall e, In e (walk_tree ev p t) -> entry_okb cs cid_of e = true.
+Proof.
+  intros ev cs cid_of t. induction t as [m l h | m ch IH] using tree_ind'; intros p H e I.
+  - cbn [walk_tree] in I. destruct I as [<-|[]]. exact H.
+  - cbn [tree_bytes_okb] in H. apply andb_true_iff in H. destruct H as [HD HC].
+    rewrite walk_tree_dir in I. destruct I as [<-|I]; [exact HD|].
+    rewrite walk_forest_sorted in I. apply in_flat_map in I. destruct I as [y [Hy He]].
+    apply (proj1 (sort_by_name_in _ _ _)) in Hy.
+    rewrite Forall_forall in IH. rewrite forallb_forall in HC.
+    specialize (HC y Hy). destruct y as [n c]. cbn [fst snd] in *. exact (IH (n, c) Hy _ HC _ He).
+Qed.
+
+Lemma forest_bytes_ok_walk : forall ev cs cid_of f, forest_bytes_okb ev cs cid_of f = true ->
+  forallb (entry_okb cs cid_of) (walk ev f) = true.
+Proof.
+  intros ev cs cid_of f H. apply forallb_forall. intros e I.
+  unfold walk in I. rewrite walk_forest_sorted in I. apply in_flat_map in I. destruct I as [y [Hy He]].
+  apply (proj1 (sort_by_name_in _ _ _)) in Hy.
+  unfold forest_bytes_okb in H. rewrite forallb_forall in H. specialize (H y Hy). destruct y as [n c].
+  cbn [fst snd app] in *. eapply tree_bytes_ok_walk; eassumption.
+Qed.
+
+Theorem layer_bytes_faithful_tree : forall ev cs cid_of f,
+  wfl_forest (has_hdr ev) f = true -> whole_seconds_forest f = true -> forest_bytes_okb ev cs cid_of f = true ->
+  exists bs ms, layer_bytes ev cs f = Ok bs /\ read_archive bs = Ok ms /\
+    map (entry_of_member cid_of) ms = map Some (emitted ev f) /\
+    Faithful (users ev) (groups ev) f (emitted ev f).
+Proof. intros ev cs cid_of f W S T. apply layer_bytes_faithful; try assumption. apply forest_bytes_ok_walk. exact T. Qed.
